@@ -98,6 +98,10 @@ type KnownFinding struct {
 func env() []string {
 	e := os.Environ()
 	e = append(e, "GOFLAGS=-mod=mod", "GOPROXY=off", "GOSUMDB=off", "GOTOOLCHAIN=local")
+	// scratch files of the simulated runs (C20 configuration files) stay out of /tmp
+	tmp := filepath.Join(buildDir, "tmp")
+	os.MkdirAll(tmp, 0o755)
+	e = append(e, "VERIF_TMP="+tmp)
 	return e
 }
 
@@ -594,7 +598,7 @@ func cmdRun(args []string) int {
 	}
 	fmt.Printf("VERIF_SEED=%d property=%s tier=%s\n", master, prop, tier)
 	start := time.Now()
-	race := prop == "C17"
+	race := prop == "C17" || prop == "C20"
 	bin := build(race)
 	buildSecs := time.Since(start).Seconds()
 	spec := tierOf(prop, tier)
@@ -869,7 +873,7 @@ func cmdReplay(args []string) int {
 	if err := json.Unmarshal(b, &rf); err != nil {
 		fail2("%v", err)
 	}
-	bin := build(rf.Property == "C17")
+	bin := build(rf.Property == "C17" || rf.Property == "C20")
 	v, hash, err := replayOnce(bin, args[0], 1)
 	if err != nil {
 		fail2("replay: %v", err)
